@@ -563,7 +563,7 @@ static int chmd_fast_find(struct mschm_decompressor *base,
     memset(f_ptr, 0, f_size);
 
     if (!(fh = sys->open(sys, chm->filename, MSPACK_SYS_OPEN_READ))) {
-        return MSPACK_ERR_OPEN;
+        return self->error = MSPACK_ERR_OPEN;
     }
 
     /* go through PMGI chunk hierarchy to reach PMGL chunk */
@@ -643,7 +643,10 @@ static unsigned char *read_chunk(struct mschm_decompressor_p *self,
     unsigned char *buf;
 
     /* check arguments - most are already checked by chmd_fast_find */
-    if (chunk_num >= chm->num_chunks) return NULL;
+    if (chunk_num >= chm->num_chunks) {
+        self->error = MSPACK_ERR_DATAFORMAT;
+        return NULL;
+    }
     
     /* ensure chunk cache is available */
     if (!chm->chunk_cache) {
